@@ -10,6 +10,18 @@ CHECKS = {
          "All operation sequences up to length 6 (quick) / 7 (thorough) over a 9-operation alphabet are run on the real har.Logger and compared step by step with a list model; 2-3 thread scenarios on colliding ids are run under the gosim scheduler with every interleaving of the logger's lock operations enumerated and each recorded history checked for linearizability against the same model.",
          "Scheduling points are synchronisation operations only (lock/atomic/channel); ids {a,b,c}; bodiless request/response shapes.",
          "exhaustive operation-sequence enumeration + stateless schedule enumeration (gosim) with linearizability oracle", "gosim", "DESIGN.md §7 C17"),
+ "C07": ("model_checking",
+         "The real proxy.go (sync/chan/select/go/time rewritten into scheduler operations) serves a simnet listener; 1..3 connections are parked at each of the six progress points (all sorted placements), Close() runs in its own thread, the parked exchanges are released in every order, late connections race with or follow Close(); every schedule with <=2 (quick) / <=3 (thorough) deviations is executed and each clause of the statement is evaluated on the recorded event order (response completeness and Connection: close marking, no modifier after Close returned, connections closed and handlers finished at the instant Close returns, late connections unserved, no panic/deadlock).",
+         "Round trips go through a synchronous harness RoundTripper; simnet is the TCP model; deviation-bounded, not all interleavings.",
+         "stateless schedule enumeration of the implementation (gosim) with deviation bounding", "gosim", "DESIGN.md §7 C07"),
+ "C04": ("model_checking",
+         "The real CONNECT path of proxy.go runs over simnet under the gosim scheduler: all early-data placements x chunk lists in both directions at once x who finishes first x full/half close x direct or downstream-proxy route x request/response conversations; every schedule with <=2 (quick) / <=3 (thorough) deviations; oracle at the first quiescent point with zero virtual time elapsed: exact byte streams, prompt EOF on the other end, both connections released.",
+         "simnet models TCP semantics (coalescing reads, FIN, write-after-close); pauses are interleavings; sizes up to 32769 bytes (1 MiB thorough).",
+         "stateless schedule enumeration of the implementation (gosim) with deviation bounding and virtual time", "gosim", "DESIGN.md §7 C04"),
+ "C20": ("model_checking",
+         "Exhaustive enumeration of contents x Range header strings from a grammar (units, 1..3 specs from a 36-spec pool incl. out-of-bounds, reversed, huge, malformed) for the body and static modifiers, and of all request paths of <=3/4 segments over 8 dotted/encoded spellings x URL forms x explicit path maps for the static modifier, against an RFC 7233 reference model and a root directory with sentinel files outside it; allocation-heavy cases run in memory-capped worker processes.",
+         "Sizes {0,1,2,10,65536}; unit pool {bytes=,Bytes=,items=,none}; ModifyRequest not exercised.",
+         "bounded-exhaustive input enumeration against a reference model", "enum", "DESIGN.md §7 C20"),
 }
 NOT_YET = "check not built yet in this round (planned, see DESIGN.md section 7); not claimed"
 
